@@ -113,7 +113,9 @@ theorem inv5_stepCasC {s s' : State} {t : Tid} {o : Ord} {loc : Loc} {exp new ob
             exact hnomt u o' this
         · intro u k' c' hl
           by_cases hu : u = t
-          · subst hu; simp [PC.limboC] at hl
+          · subst hu
+            simp only [setPc_pc, setFn_same, PC.limboC, hcw, Option.map_some, Option.some.injEq, Prod.mk.injEq] at hl
+            rw [hwrc, ← hl.1, ← hl.2]; exact hkc
           · have : (s.pc u).limboC = some (k', c') := by split at hl <;> simpa [enqLast, enqFirst, setFn, hu] using hl
             rw [hwrc]; exact h.h3 u k' c' this
       · inv5_local t h heq
